@@ -51,6 +51,7 @@ type reqestHandler interface {
 type wsConn struct {
 	// outside params
 	conn             *websocket.Conn
+	connLk           sync.RWMutex // guards the conn field itself, which a reconnect replaces (message writers hold writeLk as well)
 	connFactory      func() (*websocket.Conn, error)
 	reconnectBackoff backoff
 	pingInterval     time.Duration
@@ -694,7 +695,9 @@ func (c *wsConn) tryReconnect(ctx context.Context) bool {
 
 		c.writeLk.Lock()
 		verifYield("write.locked", c)
+		c.connLk.Lock()
 		c.conn = conn
+		c.connLk.Unlock()
 		c.errLk.Lock()
 		c.incomingErr = nil
 		c.errLk.Unlock()
@@ -982,7 +985,10 @@ func (r *deadlineResetReader) Read(p []byte) (n int, err error) {
 
 func (c *wsConn) resetReadDeadline() {
 	if c.timeout > 0 {
-		if err := c.conn.SetReadDeadline(time.Now().Add(c.timeout)); err != nil {
+		c.connLk.RLock()
+		conn := c.conn
+		c.connLk.RUnlock()
+		if err := conn.SetReadDeadline(time.Now().Add(c.timeout)); err != nil {
 			log.Error("setting read deadline", err)
 		}
 	}
